@@ -29,7 +29,13 @@ LEVEL = "exploration"
 RULE = ("Hypothesis-drawn operation lists (<= 25 ops quick / 60 thorough) over a world of 4-6 tunnel nodes: open(origin, "
         "hops) up to 6 live circuits, send/reply with tagged payloads, burst (all circuits send in the same instant), advance(dt) incl. > 60 s, and adversarial ops "
         "(unknown-id cell, forged cell for a live id, create for an id in use as exit/relay/own circuit, destroy by "
-        "adjacent / non-adjacent member / outsider / spoofed source, every reason code). Non-trivial = a step executed "
+        "adjacent / non-adjacent member / outsider / spoofed source, every reason code), plus: an outside answer during "
+        "the exit socket's linger after a teardown (late_reply), an outside answer that is itself a data message of the "
+        "tunnel overlay naming another circuit of the same originator (nested_reply), a made-up created cell for a "
+        "circuit under construction (open_under_fire), a circuit id reused while an abandoned extend is answered (family "
+        "id_reuse); endpoint stacks bare / DispatcherEndpoint IPv4 / dual; a fixed grid independent of VERIF_SEED: every "
+        "forged-cell variant (64) x every entry of a 1/2/3-hop circuit x stack, and open_under_fire x 10 variants x hops. "
+        "Non-trivial = a step executed "
         "while >= 2 circuits share a node, or an adversarial step aimed at a live id; distinct = digest of the executed "
         "op kinds with their targets' entry kinds.")
 ASSUMPTIONS = [
